@@ -225,6 +225,7 @@ class Form(T.NamedTuple):
     bounds: T.Dict[int, T.Tuple[int, T.Optional[int]]]   # digits groups: (min, max|None)
     samples: int
     leader: T.Dict[int, int] = {}  # optional group -> first group of the same optional construct
+    names: T.Dict[str, int] = {}   # named groups (?P<name>...) -> index
 
 
 def line_form(pattern: str, flags: int = 0) -> T.Optional[Form]:
@@ -248,5 +249,6 @@ def line_form(pattern: str, flags: int = 0) -> T.Optional[Form]:
         for i in idx:
             if gs[i].anchor is not None:
                 leader[i] = min(j for j in idx if gs[j].anchor == gs[i].anchor)
-        return Form(kind, dict(zip(idx, want_roles)), {i: gs[i].optional for i in idx}, bounds, len(acc) + len(rej), leader)   # type: ignore[arg-type]
+        names = dict(getattr(getattr(rx.parse(pattern, flags), 'state', None), 'groupdict', {}) or {})
+        return Form(kind, dict(zip(idx, want_roles)), {i: gs[i].optional for i in idx}, bounds, len(acc) + len(rej), leader, names)   # type: ignore[arg-type]
     return None
